@@ -514,4 +514,280 @@ theorem qCount_refines_aux {st : RStore} {a : AbsState} (hc : Consistent st) (h 
   rw [List.length_map, List.length_map, ExtTreeMap.length_toList] at this
   exact this.symm
 
+/-! ## probe queue: the order of `readySorted` is the order of `ZRANGEBYSCORE` -/
+
+/-- `(id, score)` of a queue item -/
+def qkey (x : QItem) : Nat × Int := (x.id, x.ready)
+
+/-- the insertion step of `readySorted` -/
+def qins (x : QItem) (acc : List QItem) : List QItem :=
+  let (lo, rest) := acc.span fun y => y.ready < x.ready ∨ (y.ready = x.ready ∧ y.id < x.id)
+  lo ++ x :: rest
+
+theorem readySorted_eq (q : List QItem) (now : Int) :
+    AbsState.readySorted q now = (q.filter fun x => x.ready ≤ now).foldr qins [] := rfl
+
+theorem qins_eq (x : QItem) (acc : List QItem) :
+    qins x acc = acc.takeWhile (fun y => y.ready < x.ready ∨ (y.ready = x.ready ∧ y.id < x.id)) ++
+      x :: acc.dropWhile (fun y => y.ready < x.ready ∨ (y.ready = x.ready ∧ y.id < x.id)) := by
+  unfold qins
+  rw [span_eq]
+
+theorem qins_perm (x : QItem) (acc : List QItem) : (qins x acc).Perm (x :: acc) := by
+  rw [qins_eq]
+  have := @List.perm_middle _ x (acc.takeWhile fun y => y.ready < x.ready ∨ (y.ready = x.ready ∧ y.id < x.id))
+    (acc.dropWhile fun y => y.ready < x.ready ∨ (y.ready = x.ready ∧ y.id < x.id))
+  rw [List.takeWhile_append_dropWhile] at this
+  exact this
+
+theorem qsort_perm (l : List QItem) : (l.foldr qins []).Perm l := by
+  induction l with
+  | nil => exact List.Perm.refl _
+  | cons x xs ih => exact (qins_perm x _).trans (List.Perm.cons x ih)
+
+theorem readySorted_perm (q : List QItem) (now : Int) :
+    (AbsState.readySorted q now).Perm (q.filter fun x => x.ready ≤ now) := by
+  rw [readySorted_eq]; exact qsort_perm _
+
+theorem mem_readySorted {q : List QItem} {now : Int} {x : QItem} :
+    x ∈ AbsState.readySorted q now ↔ x ∈ q ∧ x.ready ≤ now := by
+  rw [(readySorted_perm q now).mem_iff, List.mem_filter]
+  simp
+
+theorem qins_map (x : QItem) (acc : List QItem) : (qins x acc).map qkey = zins (qkey x) (acc.map qkey) := by
+  rw [qins_eq, zins_eq, List.map_append, List.map_cons, List.takeWhile_map, List.dropWhile_map]
+  rfl
+
+theorem qsort_map (l : List QItem) : (l.foldr qins []).map qkey = zsort (l.map qkey) := by
+  induction l with
+  | nil => rfl
+  | cons x xs ih =>
+    show (qins x (xs.foldr qins [])).map qkey = zins (qkey x) (zsort (xs.map qkey))
+    rw [qins_map, ih]
+
+theorem readySorted_map (q : List QItem) (now : Int) :
+    (AbsState.readySorted q now).map qkey = zsort ((q.filter fun x => x.ready ≤ now).map qkey) := by
+  rw [readySorted_eq]; exact qsort_map _
+
+theorem nodup_of_map {α β : Type} (f : α → β) {l : List α} (h : (l.map f).Nodup) : l.Nodup := by
+  rw [List.Nodup, List.pairwise_map] at h
+  exact h.imp (fun hne e => hne (congrArg f e))
+
+/-- the sort does not depend on the order of its input (no two entries share an id) -/
+theorem zsort_congr {l1 l2 : List (Nat × Int)} (hp : l1.Perm l2) (hnd : (l1.map (·.1)).Nodup) : zsort l1 = zsort l2 := by
+  have hnd2 : (l2.map (·.1)).Nodup := ((hp.map (·.1)).nodup_iff).1 hnd
+  refine List.Perm.eq_of_pairwise (le := zlt) ?_ (zsort_sorted l1 hnd) (zsort_sorted l2 hnd2)
+    ((zsort_perm l1).trans (hp.trans (zsort_perm l2).symm))
+  intro x y _ _ hxy hyx
+  unfold zlt at hxy hyx
+  omega
+
+theorem ready_keys_nodup {a : AbsState} (hnd : (a.queue.map (·.id)).Nodup) (now : Int) :
+    (((a.queue.filter fun x => x.ready ≤ now).map qkey).map (·.1)).Nodup := by
+  rw [List.map_map]
+  exact ((List.filter_sublist (l := a.queue)).map _).nodup hnd
+
+/-- the ready part of the specification's queue, as `(id, score)` pairs, is the selected part of `probes:queue` -/
+theorem ready_perm_zsel {st : RStore} {a : AbsState} (hc : Consistent st) (h : RelQ st a) (now : Int) :
+    ((a.queue.filter fun x => x.ready ≤ now).map qkey).Perm (zsel st.pQueue (some now)) := by
+  refine (List.perm_ext_iff_of_nodup (nodup_of_map (·.1) (ready_keys_nodup h.nodup now))
+    (nodup_of_map (·.1) (zsel_keys_nodup _ _))).2 ?_
+  rintro ⟨id, r⟩
+  rw [mem_zsel, List.mem_map]
+  constructor
+  · rintro ⟨x, hx, hk⟩
+    rw [List.mem_filter] at hx
+    cases hk
+    refine ⟨((h.mem_iff x).1 hx.1).2, ?_⟩
+    intro b hb; cases hb
+    simpa using hx.2
+  · rintro ⟨hr, hb⟩
+    have hr' : st.pQueue[id]? = some r := hr
+    obtain ⟨pe, hpe⟩ := mem_iff_getElem?_some.1 ((hc.prb id).1 (mem_iff_getElem?_some.2 ⟨r, hr'⟩))
+    refine ⟨⟨id, pe.1, r, pe.2⟩, ?_, rfl⟩
+    rw [List.mem_filter]
+    refine ⟨(h.mem_iff _).2 ⟨hpe, hr'⟩, ?_⟩
+    have : r ≤ now := hb now rfl
+    simpa using this
+
+/-- **`ZRANGEBYSCORE probes:queue -inf now LIMIT 0 k` returns the ids of the first `k` ready items** of the specification,
+in the same order -/
+theorem zrange_eq_batch {st : RStore} {a : AbsState} (hc : Consistent st) (h : RelQ st a) (now : Int) (k : Nat) :
+    zrangeUpTo st.pQueue (some now) (some k) = ((AbsState.readySorted a.queue now).take k).map (·.id) := by
+  rw [zrangeUpTo_eq]
+  show ((zsort (zsel st.pQueue (some now))).map (·.1)).take k = _
+  rw [← zsort_congr (ready_perm_zsel hc h now) (ready_keys_nodup h.nodup now), ← readySorted_map, List.map_map,
+    List.map_take]
+  rfl
+
+/-! ## probe queue: one pop round -/
+
+/-- the specification's queue after a batch was taken out -/
+def dropBatch (q batch : List QItem) : List QItem := q.filter fun x => !(batch.any fun b => b.id == x.id)
+
+theorem mem_dropBatch {q batch : List QItem} {x : QItem} :
+    x ∈ dropBatch q batch ↔ x ∈ q ∧ x.id ∉ batch.map (·.id) := by
+  unfold dropBatch
+  rw [List.mem_filter]
+  have : (batch.any fun b => b.id == x.id) = true ↔ x.id ∈ batch.map (·.id) := by
+    rw [List.any_eq_true, List.mem_map]
+    constructor
+    · rintro ⟨b, hb, he⟩; exact ⟨b, hb, by simpa using he⟩
+    · rintro ⟨b, hb, he⟩; exact ⟨b, hb, by simpa using he⟩
+  constructor
+  · rintro ⟨h1, h2⟩
+    refine ⟨h1, fun hh => ?_⟩
+    rw [this.2 hh] at h2; cases h2
+  · rintro ⟨h1, h2⟩
+    refine ⟨h1, ?_⟩
+    cases hb : (batch.any fun b => b.id == x.id) with
+    | false => rfl
+    | true => exact absurd (this.1 hb) h2
+
+theorem relQ_popBatch {st : RStore} {a : AbsState} (h : RelQ st a) (batch : List QItem) :
+    RelQ (st.popBatch (batch.map (·.id))).1 { a with queue := dropBatch a.queue batch } := by
+  apply RelQ.of_mem
+  · exact ((List.filter_sublist (l := a.queue)).map _).nodup h.nodup
+  · intro x
+    show x ∈ dropBatch a.queue batch ↔ _
+    rw [mem_dropBatch, popBatch_pItems, popBatch_pQueue, h.mem_iff x]
+    by_cases hx : x.id ∈ batch.map (·.id)
+    · rw [if_pos hx, if_pos hx]; simp [hx]
+    · rw [if_neg hx, if_neg hx]; simp [hx]
+  · intro id hid
+    obtain ⟨v, hv⟩ := mem_iff_getElem?_some.1 hid
+    rw [popBatch_pItems] at hv
+    split at hv
+    · cases hv
+    · exact h.ltItems id (mem_iff_getElem?_some.2 ⟨v, hv⟩)
+  · intro id hid
+    obtain ⟨v, hv⟩ := mem_iff_getElem?_some.1 hid
+    rw [popBatch_pQueue] at hv
+    split at hv
+    · cases hv
+    · exact h.ltQueue id (mem_iff_getElem?_some.2 ⟨v, hv⟩)
+
+/-- `HMGET probes:items` of a batch of queued items returns their payloads, none missing -/
+theorem batch_items {st : RStore} {a : AbsState} (h : RelQ st a) (batch : List QItem) (hsub : ∀ x ∈ batch, x ∈ a.queue) :
+    ((batch.map (·.id)).filterMap fun id => st.pItems[id]?) = batch.map fun x => (x.probe, x.expires) := by
+  rw [List.filterMap_map]
+  exact filterMap_eq_map_of_some _ _ _ (fun x hx => ((h.mem_iff x).1 (hsub x hx)).1)
+
+/-- the items of a batch that are returned (not expired) -/
+def keptOf (batch : List QItem) (now : Int) : List QItem := batch.filter fun x => !x.expired now
+
+/-- the machine's bookkeeping after a pop batch is the specification's -/
+theorem popNext_batch (n : Int) (got : List Probe) (e : Nat) (batch : List QItem) (clock : Int) (hne : batch ≠ []) :
+    popNext n got e (batch.map fun x => (x.probe, x.expires)) clock =
+      if (got ++ (keptOf batch clock).map (·.probe)).length < n.toNat then
+        .popRange (got ++ (keptOf batch clock).map (·.probe)) (e + (batch.length - (keptOf batch clock).length))
+      else .done (.probes (got ++ (keptOf batch clock).map (·.probe)) (e + (batch.length - (keptOf batch clock).length))) := by
+  have hk : (batch.map fun x => (x.probe, x.expires)).filter (fun pe => !expiredAt pe.2 clock) =
+      (keptOf batch clock).map fun x => (x.probe, x.expires) := by
+    rw [List.filter_map]; rfl
+  unfold popNext
+  have hne' : (batch.map fun x => (x.probe, x.expires)).isEmpty = false := by
+    rw [List.isEmpty_map]; cases batch with
+    | nil => exact absurd rfl hne
+    | cons _ _ => rfl
+  simp only [hne', Bool.false_eq_true, if_false, hk, List.map_map, List.length_map]
+  rfl
+
+/-! ## probe queue: `PopMany` -/
+
+theorem popManyLoop_succ (now : Int) (n fuel : Nat) (q : List QItem) (got : List Probe) (exp : Nat) :
+    AbsState.popManyLoop now n (fuel + 1) q got exp =
+      if got.length ≥ n then (q, got, exp)
+      else if ((AbsState.readySorted q now).take (n - got.length)).isEmpty then (q, got, exp)
+      else AbsState.popManyLoop now n fuel (dropBatch q ((AbsState.readySorted q now).take (n - got.length)))
+        (got ++ (keptOf ((AbsState.readySorted q now).take (n - got.length)) now).map (·.probe))
+        (exp + (((AbsState.readySorted q now).take (n - got.length)).length -
+          (keptOf ((AbsState.readySorted q now).take (n - got.length)) now).length)) := rfl
+
+theorem popManyLoop_full (now : Int) (n fuel : Nat) (q : List QItem) (got : List Probe) (exp : Nat) (h : got.length ≥ n) :
+    AbsState.popManyLoop now n fuel q got exp = (q, got, exp) := by
+  cases fuel with
+  | zero => rfl
+  | succ f => rw [popManyLoop_succ, if_pos h]
+
+/-- outcome of the machine's run against the outcome of the specification's loop -/
+def PopOut (out : RStore × QPC × Nat) (a : AbsState) (res : List QItem × List Probe × Nat) (fresh : Nat) : Prop :=
+  out.2.1 = .done (.probes res.2.1 res.2.2) ∧ RelQ out.1 { a with queue := res.1 } ∧ Consistent out.1 ∧ out.2.2 = fresh
+
+theorem dropBatch_length_lt {q batch : List QItem} {x : QItem} (hx : x ∈ batch) (hq : x ∈ q) :
+    (dropBatch q batch).length < q.length := by
+  unfold dropBatch
+  rw [List.length_filter_lt_length_iff_exists]
+  refine ⟨x, hq, ?_⟩
+  have : (batch.any fun b => b.id == x.id) = true := List.any_eq_true.2 ⟨x, hx, by simp⟩
+  simp [this]
+
+/-- the rounds of `PopMany` (range, batch, range, …) against `popManyLoop`, from any intermediate point -/
+theorem popLoop_refines (clock : Int) (n : Int) (fresh : Nat) :
+    ∀ (fuelA : Nat) (st : RStore) (a : AbsState) (got : List Probe) (e : Nat) (fuelM : Nat),
+      Consistent st → RelQ st a → got.length < n.toNat → a.queue.length < fuelA → 2 * a.queue.length + 1 ≤ fuelM →
+      PopOut (runQ st clock fresh (.popMany n) (.popRange got e) fuelM) a
+        (AbsState.popManyLoop clock n.toNat fuelA a.queue got e) fresh := by
+  intro fuelA
+  induction fuelA with
+  | zero => intro st a got e fuelM _ _ _ hlen; omega
+  | succ fuelA ih =>
+    intro st a got e fuelM hc h hgot hlen hfuel
+    obtain ⟨m, rfl⟩ : ∃ m, fuelM = m + 1 := ⟨fuelM - 1, by omega⟩
+    obtain ⟨q1, q2, q3⟩ := qstep_popRange st clock fresh n got e
+    have hwant : (n - (got.length : Int)).toNat = n.toNat - got.length := by omega
+    have hnge : ¬ got.length ≥ n.toNat := by omega
+    have hfr : (if false = true then fresh + 1 else fresh) = fresh := rfl
+    rw [runQ_succ_live _ _ _ _ _ _ rfl, q1, q2, q3, hfr, hwant, zrange_eq_batch hc h, List.isEmpty_map, popManyLoop_succ,
+      if_neg hnge]
+    generalize hbatch : (AbsState.readySorted a.queue clock).take (n.toNat - got.length) = batch
+    have hsub : ∀ x ∈ batch, x ∈ a.queue := by
+      intro x hx
+      rw [← hbatch] at hx
+      exact (mem_readySorted.1 ((List.take_sublist _ _).subset hx)).1
+    by_cases hb : batch.isEmpty = true
+    · rw [if_pos hb, if_pos hb, runQ_done]
+      exact ⟨rfl, h, hc, rfl⟩
+    · rw [if_neg hb, if_neg hb]
+      have hne : batch ≠ [] := fun e => hb (by rw [e]; rfl)
+      obtain ⟨x, hx⟩ := List.exists_mem_of_ne_nil batch hne
+      have hpos : 0 < a.queue.length := List.length_pos_of_mem (hsub x hx)
+      obtain ⟨m', rfl⟩ : ∃ m', m = m' + 1 := ⟨m - 1, by omega⟩
+      obtain ⟨p1, p2, p3⟩ := qstep_popExec st clock fresh n got e (batch.map (·.id))
+      have hc' := popBatch_consistent hc (batch.map (·.id))
+      have h' := relQ_popBatch h batch
+      have hlt' := dropBatch_length_lt hx (hsub x hx)
+      rw [runQ_succ_live _ _ _ _ _ _ rfl, p1, p2, p3, hfr, batch_items h batch hsub, popNext_batch n got e batch clock hne]
+      by_cases hlt : (got ++ (keptOf batch clock).map (·.probe)).length < n.toNat
+      · rw [if_pos hlt]
+        exact ih _ _ _ _ m' hc' h' hlt (by show (dropBatch a.queue batch).length < fuelA; omega)
+          (by show 2 * (dropBatch a.queue batch).length + 1 ≤ m'; omega)
+      · rw [if_neg hlt, runQ_done, popManyLoop_full _ _ _ _ _ _ (by omega)]
+        exact ⟨rfl, h', hc', rfl⟩
+
+/-- **`PopMany(n)` run alone refines `AbsState.popMany`**: same probes in the same order, same expired count, related
+states.  `2·ZCARD + 1` commands always suffice. -/
+theorem popMany_refines_aux {st : RStore} {a : AbsState} (hc : Consistent st) (h : RelQ st a) (clock : Int) (fresh : Nat)
+    (n : Int) {fuel : Nat} (hf : 2 * st.pQueue.size + 1 ≤ fuel) :
+    (runQ st clock fresh (.popMany n) (QOp.popMany n).begin fuel).2.1 =
+      .done (.probes (a.popMany clock n).2.1 (a.popMany clock n).2.2) ∧
+    RelQ (runQ st clock fresh (.popMany n) (QOp.popMany n).begin fuel).1 (a.popMany clock n).1 ∧
+    Consistent (runQ st clock fresh (.popMany n) (QOp.popMany n).begin fuel).1 ∧
+    (runQ st clock fresh (.popMany n) (QOp.popMany n).begin fuel).2.2 = fresh := by
+  by_cases hn : n ≤ 0
+  · have hb : (QOp.popMany n).begin = .done (.probes [] 0) := by simp [QOp.begin, hn]
+    have ha : a.popMany clock n = (a, [], 0) := by simp [AbsState.popMany, hn]
+    rw [hb, runQ_done, ha]
+    exact ⟨rfl, h, hc, rfl⟩
+  · have hb : (QOp.popMany n).begin = .popRange [] 0 := by simp [QOp.begin, hn]
+    have ha : a.popMany clock n =
+        ({ a with queue := (AbsState.popManyLoop clock n.toNat (a.queue.length + 1) a.queue [] 0).1 },
+          (AbsState.popManyLoop clock n.toNat (a.queue.length + 1) a.queue [] 0).2.1,
+          (AbsState.popManyLoop clock n.toNat (a.queue.length + 1) a.queue [] 0).2.2) := by
+      simp [AbsState.popMany, hn]
+    have hsz := qCount_refines_aux hc h
+    unfold AbsState.qCount at hsz
+    rw [hb, ha]
+    exact popLoop_refines clock n fresh (a.queue.length + 1) st a [] 0 fuel hc h (by simp; omega) (by omega) (by omega)
+
 end Swat4
